@@ -401,3 +401,116 @@ def get(repo):
     if repo not in _cf_cache:
         _cf_cache[repo] = CFront(repo)
     return _cf_cache[repo]
+
+
+# -------------------------------------------------------------------------------------------
+# guards in effect: for every node of a function body, the list of (condition text, polarity)
+# established by enclosing if-branches and by preceding `if (c) continue/return/break;`
+# -------------------------------------------------------------------------------------------
+def _norm(t):
+    import re as _re
+    return _re.sub(r"\s+", "", t)
+
+
+def _split_and(cond):
+    """Conjuncts of a condition (for a true branch) as AST nodes."""
+    c = strip(cond)
+    if c.get("kind") == "BinaryOperator" and c.get("opcode") == "&&":
+        a, b = kids(c)
+        return _split_and(a) + _split_and(b)
+    return [c]
+
+
+def _split_or(cond):
+    c = strip(cond)
+    if c.get("kind") == "BinaryOperator" and c.get("opcode") == "||":
+        a, b = kids(c)
+        return _split_or(a) + _split_or(b)
+    return [c]
+
+
+def _facts(cond, polarity):
+    """Atomic facts implied by `cond == polarity`: list of (text, bool)."""
+    c = strip(cond)
+    if c.get("kind") == "UnaryOperator" and c.get("opcode") == "!":
+        return _facts(kids(c)[0], not polarity)
+    if c.get("kind") == "BinaryOperator" and c.get("opcode") in ("!=", "==") and len(kids(c)) == 2:
+        a, b = kids(c)
+        for x, y in ((a, b), (b, a)):
+            ys = strip(y)
+            if ys.get("kind") == "IntegerLiteral" and str(ys.get("value")) == "0" or ys.get("kind") == "CXXBoolLiteralExpr" and not ys.get("value"):
+                return _facts(x, polarity if c.get("opcode") == "!=" else not polarity)
+    if polarity:
+        parts = _split_and(c)
+        if len(parts) > 1:
+            out = []
+            for p in parts:
+                out.extend(_facts(p, True))
+            return out
+    else:
+        parts = _split_or(c)
+        if len(parts) > 1:
+            out = []
+            for p in parts:
+                out.extend(_facts(p, False))
+            return out
+    return [(_norm(text(c)), polarity)]
+
+
+def _always_leaves(stmt):
+    s = stmt
+    if s.get("kind") in ("ContinueStmt", "ReturnStmt", "BreakStmt"):
+        return True
+    if s.get("kind") == "CompoundStmt":
+        ks = kids(s)
+        return bool(ks) and _always_leaves(ks[-1])
+    return False
+
+
+def guards(fn):
+    """{node id: [(text, polarity), ...]} for all nodes in the body of fn."""
+    res = {}
+
+    def visit(n, g):
+        res[n.get("id")] = g
+        k = n.get("kind")
+        if k == "IfStmt":
+            ks = kids(n)
+            cond = ks[0]
+            visit(cond, g)
+            if len(ks) > 1:
+                visit(ks[1], g + _facts(cond, True))
+            if len(ks) > 2:
+                visit(ks[2], g + _facts(cond, False))
+            return
+        if k == "CompoundStmt":
+            cur = list(g)
+            for s in kids(n):
+                visit(s, cur)
+                if s.get("kind") == "IfStmt":
+                    ks = kids(s)
+                    if len(ks) == 2 and _always_leaves(ks[1]):
+                        cur = cur + _facts(ks[0], False)
+            return
+        if k == "ConditionalOperator":
+            ks = kids(n)
+            visit(ks[0], g)
+            visit(ks[1], g + _facts(ks[0], True))
+            visit(ks[2], g + _facts(ks[0], False))
+            return
+        if k == "BinaryOperator" and n.get("opcode") == "&&":
+            a, b = kids(n)
+            visit(a, g)
+            visit(b, g + _facts(a, True))
+            return
+        if k == "BinaryOperator" and n.get("opcode") == "||":
+            a, b = kids(n)
+            visit(a, g)
+            visit(b, g + _facts(a, False))
+            return
+        for c in kids(n):
+            visit(c, g)
+    b = body_of(fn)
+    if b is not None:
+        visit(b, [])
+    return res
